@@ -27,11 +27,11 @@ type c13Cfg struct {
 	Files map[string]string `json:"files,omitempty"`
 }
 
-var c13Strings = []string{"abc", "a.c", "evil", "x1", "Xb.d", "a(b", `\/abc\/{id}`}
+var c13Strings = []string{"abc", "a.c", "evil", "x1", "Xb.d", "a(b", `\/abc\/{id}`, "CAF\u00c9", "caf\u00e9"}
 
 // c13Alias: configurations of these strings take part in the same runs (the
 // second is what a cache-key slip in another role of the first would collide with)
-var c13Alias = map[string]string{"abc": `\/abc\/{id}`, `\/abc\/{id}`: "abc"}
+var c13Alias = map[string]string{"abc": `\/abc\/{id}`, `\/abc\/{id}`: "abc", "CAF\u00c9": "caf\u00e9", "caf\u00e9": "CAF\u00c9"}
 
 type c13Role struct {
 	name     string
@@ -65,6 +65,16 @@ var c13Roles = []c13Role{
 	{"restplain", 1, func(s string, v int) (string, map[string]string) {
 		// a template without slash and placeholder expands to itself: the same key text as the regex roles
 		return fmt.Sprintf("SecRule REQUEST_BASENAME \"@restpath %s\" \"id:14,phase:1,deny,status:414\"\n", s), nil
+	}},
+	{"schema", 3, func(s string, v int) (string, map[string]string) {
+		// JSON schemas under one file name with differing contents; two of them
+		// declare the same $id (a compiler shared between WAFs would confuse them)
+		content := []string{
+			`{"$id":"http://sim/schema","type":"object","required":["a"]}`,
+			`{"$id":"http://sim/schema","type":"object","required":["b"]}`,
+			`{"type":"object","required":["k"]}`,
+		}[v]
+		return fmt.Sprintf("SecRequestBodyAccess On\nSecRule REQUEST_HEADERS:Content-Type \"@contains json\" \"id:16,phase:1,pass,nolog,ctl:requestBodyProcessor=JSON\"\nSecRule REQUEST_BODY \"@validateSchema %s.json\" \"id:15,phase:2,deny,status:415\"\n", s), map[string]string{s + ".json": content}
 	}},
 	{"nid", 1, func(s string, v int) (string, map[string]string) {
 		return fmt.Sprintf("SecRule ARGS \"@validateNid cl %s\" \"id:7,phase:1,deny,status:407\"\n", s), nil
@@ -104,7 +114,14 @@ func c13BuildPool() {
 	}
 	for _, s := range c13Strings {
 		var insts []inst
+		nonASCII := strings.IndexFunc(s, func(r rune) bool { return r > 127 }) >= 0
 		for _, r := range c13Roles {
+			if nonASCII && !strings.HasPrefix(r.name, "pm") && r.name != "rxkey" && r.name != "negrx" {
+				// the strings that differ only in the case of a non-ASCII letter are
+				// there for the phrase-list roles (keys folded differently from the
+				// matcher) and the plain regex keys; keeps the pool small
+				continue
+			}
 			for v := 0; v < r.variants; v++ {
 				t, f := r.gen(s, v)
 				insts = append(insts, inst{fmt.Sprintf("%s%d(%s)", r.name, v, s), t, f})
@@ -117,6 +134,9 @@ func c13BuildPool() {
 			for j, b := range insts {
 				if i >= j || strings.SplitN(a.name, "(", 2)[0][:3] == strings.SplitN(b.name, "(", 2)[0][:3] {
 					continue
+				}
+				if strings.HasPrefix(a.name, "schema") || strings.HasPrefix(b.name, "schema") {
+					continue // keyed by content digest: no other role can collide with it
 				}
 				files := map[string]string{}
 				for k, v := range a.files {
@@ -142,6 +162,11 @@ func c13Requests() []*TxScript {
 	mk := func(id, uri string) *TxScript {
 		return &TxScript{ID: id, Method: "GET", URI: uri, Headers: []Header{{"Host", "h"}}, RespStatus: 200, StopAfter: -1}
 	}
+	mkj := func(id, body string) *TxScript {
+		s := mk(id, "/api")
+		s.Method, s.BodyKind, s.ContentType, s.Body = "POST", "json", "application/json", []byte(body)
+		return s
+	}
 	mkh := func(id, uri, hk, hv string) *TxScript {
 		s := mk(id, uri)
 		s.Headers = append(s.Headers, Header{hk, hv})
@@ -150,6 +175,7 @@ func c13Requests() []*TxScript {
 	return []*TxScript{
 		mk("q0", "/?abc=1"), mk("q1", "/?k=abc"), mk("q2", "/?k=zzz&a.c=5"), mk("q3", "/abc/77?k=qqq"),
 		mk("q4", "/?k=evil&evil=x1"), mk("q5", "/?x1=a1c&k=axc"), mk("q6", "/x1/9?axc=408"), mk("q7", "/?k=12345678-5"),
+		mkj("q12", `{"a":1}`), mkj("q13", `{"b":1,"k":2}`), mk("q14", "/?k=caf%C3%A9+zzz&caf%C3%A9=1"), mk("q15", "/?k=CAF%C3%89+zzz&CAF%C3%89=1"),
 		mkh("q8", "/?Xb1d=1&k=xb2d", "Xb3d", "v"), mkh("q9", "/Xb.d/4?xbzd=Xb.d", "xbyd", "Xb9d"), mkh("q10", "/?k=1", "abc", "evil"), mk("q11", "/abc/5?/abc/{id}=1&k=/abc/7"),
 	}
 }
@@ -343,7 +369,7 @@ func c13Run(w *verifrt.World, tier Tier) *RunResult {
 			case "build":
 				h, class, detail := c13Build(&c13Pool[o.Cfg])
 				g := c13Table[o.Cfg]
-				roles := strings.NewReplacer("(abc)", "", "(a.c)", "", "(evil)", "", "(x1)", "", "(Xb.d)", "", "(a(b)", "", `(\/abc\/{id})`, "").Replace(c13Pool[o.Cfg].Name)
+				roles := strings.NewReplacer("(abc)", "", "(a.c)", "", "(evil)", "", "(x1)", "", "(Xb.d)", "", "(a(b)", "", `(\/abc\/{id})`, "", "(CAF\u00c9)", "", "(caf\u00e9)", "").Replace(c13Pool[o.Cfg].Name)
 				switch {
 				case class == "PANIC":
 					add("build-panic", roles, "task %d op %d: building %s panicked: %s\nconfiguration:\n%s", ti, oi, c13Pool[o.Cfg].Name, detail, c13Pool[o.Cfg].Text)
@@ -381,7 +407,7 @@ func c13Run(w *verifrt.World, tier Tier) *RunResult {
 					continue
 				}
 				if clause, detail := c05Diff(want, got); clause != "" {
-					roles := strings.NewReplacer("(abc)", "", "(a.c)", "", "(evil)", "", "(x1)", "", "(Xb.d)", "", "(a(b)", "", `(\/abc\/{id})`, "").Replace(c13Pool[ci].Name)
+					roles := strings.NewReplacer("(abc)", "", "(a.c)", "", "(evil)", "", "(x1)", "", "(Xb.d)", "", "(a(b)", "", `(\/abc\/{id})`, "", "(CAF\u00c9)", "", "(caf\u00e9)", "").Replace(c13Pool[ci].Name)
 					add("probe-differs", roles+"/"+clause, "task %d op %d: probe %s on %s: %s\nwith the cache compiled out: %s\nhere:                        %s\nconfiguration:\n%s", ti, oi, reqs[o.Req].URI, c13Pool[ci].Name, detail, jsonOf(want), jsonOf(got), c13Pool[ci].Text)
 				}
 			}
